@@ -147,8 +147,8 @@ static const char *src_name(int kind, int pat, int bd, char *buf, size_t n) {
     long hi = (1 << bd) - 1, e = coef_extreme(bd);
     if (kind == 0) snprintf(buf, n, "svt_av1_fwd_txfm2d_c(residual pattern '%s', range +-%ld)", res_name(pat, hi, pn), hi);
     else if (kind == 1) snprintf(buf, n, "direct coefficient pattern '%s' over +-%ld", kc_pat_name(pat, -e, e, pn), e);
-    else if (kind == 2) snprintf(buf, n, "threshold ramp: coeff[i] = (i&1 ? -1 : 1) * (T(dc|ac) + (i/2)%%5 - 2), T = zero-bin threshold of the row");
-    else snprintf(buf, n, "step ramp: coeff[i] = (i&4 ? -1 : 1) * (((1 + (7i)%%61) * dequant - round) >> log_scale) + i%%3 - 1)");
+    else if (kind == 2) snprintf(buf, n, "threshold ramp: coeff[i] = ((i+q/5)&1 ? -1 : 1) * (T(dc|ac) + (i/2+q)%%5 - 2), T = zero-bin threshold of the row, q = qindex");
+    else snprintf(buf, n, "step ramp: coeff[i] = ((i+q/3)&4 ? -1 : 1) * ((((1 + (7i+q)%%61) * dequant - round) >> log_scale) + (i+q)%%3 - 1), q = qindex");
     return buf;
 }
 
@@ -190,8 +190,9 @@ static void quant_call(void *f, int mode, const QRow *q, int n, int ls, const Sc
     else ((qfph_fn)f)(COEF + 64, n, q->zbin, q->round_fp, q->quant_fp, q->shift, qc, dqc, q->dequant, eob, so->scan, so->iscan, (int16_t)ls);
 }
 
-// kinds 2 / 3: ramps that depend on the quantizer row (zero-bin thresholds, step boundaries)
-static void coef_ramp(int kind, int mode, const QRow *q, int n, int ls, int bd) {
+// kinds 2 / 3: ramps that depend on the quantizer row (zero-bin thresholds, step boundaries); ph (= qindex) shifts the phase so that
+// the single DC position sees every offset / sign over the qindex alphabet
+static void coef_ramp(int kind, int mode, const QRow *q, int n, int ls, int bd, int ph) {
     long e = coef_extreme(bd);
     coef_guard(n);
     for (int i = 0; i < n; i++) {
@@ -199,15 +200,15 @@ static void coef_ramp(int kind, int mode, const QRow *q, int n, int ls, int bd) 
         long v;
         if (kind == 2) {
             long t = mode == 0 ? ((q->zbin[ac] + ((1 << ls) >> 1)) >> ls) : ((q->dequant[ac] + (1 << (1 + ls)) - 1) >> (1 + ls));
-            v      = t + (i / 2) % 5 - 2;
+            v      = t + (i / 2 + ph) % 5 - 2;
             if (v < 0) v = 0;
-            if (i & 1) v = -v;
+            if ((i + ph / 5) & 1) v = -v;
         } else {
             long rnd = mode == 0 ? q->round[ac] : q->round_fp[ac];
-            long m   = 1 + (7L * i) % 61;
-            v        = ((m * q->dequant[ac] - rnd) >> ls) + i % 3 - 1;
+            long m   = 1 + (7L * i + ph) % 61;
+            v        = ((m * q->dequant[ac] - rnd) >> ls) + (i + ph) % 3 - 1;
             if (v < 0) v = 0;
-            if (i & 4) v = -v;
+            if ((i + ph / 3) & 4) v = -v;
         }
         COEF[64 + i] = (int32_t)(v > e ? e : v < -e ? -e : v);
     }
@@ -240,7 +241,7 @@ static void quant_driver(Run *r, int mode, int fixed_ls, int hbd) {
                         if (case_skip_fast(r)) continue;
                         int  qi = ql[qx];
                         QRow q = qrow(bdi, qi);
-                        if (kind >= 2) coef_ramp(kind, mode, &q, n, ls, bd);
+                        if (kind >= 2) coef_ramp(kind, mode, &q, n, ls, bd, qi);
                         else if (!ready) {
                             if (kind == 0) { if (!coef_from_residual(ts, tt, bd, pat)) { r->case_idx++; continue; } }
                             else coef_direct(ts, bd, pat);
